@@ -771,3 +771,188 @@ func TestInconvertible(t *testing.T) {
 		kit.Rec.Case(desc, true, "inconvertible")
 	})
 }
+
+// ---------------------------------------------------------------------------
+// Histories: bindings made earlier in the life of one container must not colour later ones.
+//  - a component that edits its own prefix-bound map / list in place (fill in defaults, sort) must not change what a
+//    component created later - or Configure.Get - sees under the same key;
+//  - a lazily created component whose first creation fails after its fields were bound is bound afresh, against the
+//    configuration as it is then, when it is requested again.
+
+type HMutator struct {
+	M      map[string]any `prefix:"c17h.m"`
+	L      []any          `prefix:"c17h.l"`
+	SeenM  map[string]any
+	SeenL  []any
+	Mutate bool
+}
+
+func (m *HMutator) Naming() string { return "c17h-a-mutator" }
+func (m *HMutator) Init() error {
+	m.SeenM = map[string]any{}
+	for k, v := range m.M {
+		m.SeenM[k] = v
+	}
+	m.SeenL = append([]any(nil), m.L...)
+	if !m.Mutate {
+		return nil
+	}
+	for k := range m.M {
+		m.M[k] = "OVERRIDDEN"
+	}
+	if m.M != nil {
+		m.M["added"] = "x"
+	}
+	for i, j := 0, len(m.L)-1; i < j; i, j = i+1, j-1 {
+		m.L[i], m.L[j] = m.L[j], m.L[i]
+	}
+	return nil
+}
+
+type HReader struct {
+	M  map[string]any    `prefix:"c17h.m"`
+	MS map[string]string `prefix:"c17h.m"`
+	MV map[string]string `value:"${c17h.m}"`
+	L  []any             `prefix:"c17h.l"`
+	LS []string          `prefix:"c17h.l"`
+	LV []string          `value:"${c17h.l}"`
+	LQ []string          `prop:"c17h.l"`
+	W  struct {
+		M map[string]string `yaml:"m"`
+		L []string          `yaml:"l"`
+	} `prefix:"c17h"`
+}
+
+func (m *HReader) Naming() string { return "c17h-b-reader" }
+
+type HLazy struct {
+	P    string `prefix:"c17h.key"`
+	V    string `value:"${c17h.key}"`
+	Q    string `prop:"c17h.key"`
+	NP   int    `prefix:"c17h.n"`
+	NV   int    `value:"${c17h.n}"`
+	ND   int    `value:"${c17h.n:5}"`
+	Z    string `prefix:"c17h.zones.${c17h.zone}.host"`
+	ZV   string `value:"${c17h.zones.${c17h.zone}.host}"`
+	Gate string `value:"${c17h.gate:closed}"`
+	Runs int
+}
+
+func (l *HLazy) Naming() string { return "c17h-lazy" }
+func (l *HLazy) LazyInit()      {}
+func (l *HLazy) Init() error {
+	l.Runs++
+	if l.Gate != "open" {
+		return fmt.Errorf("gate is %q", l.Gate)
+	}
+	return nil
+}
+
+func TestRebindHistory(t *testing.T) {
+	kit.Rec.Rule(rule)
+	rapid.Check(t, func(t *rapid.T) {
+		word := rapid.StringMatching(`[a-z]{1,5}`)
+		m := rapid.MapOfN(rapid.StringMatching(`[a-z]{1,3}`), word, 1, 3).Draw(t, "m")
+		l := rapid.SliceOfNDistinct(word, 2, 4, rapid.ID[string]).Draw(t, "l")
+		cur := map[string]any{"key": word.Draw(t, "key"), "n": rapid.IntRange(1, 99).Draw(t, "n"), "zone": rapid.SampledFrom([]string{"east", "west"}).Draw(t, "zone")}
+		zones := map[string]any{"east": map[string]any{"host": "east.example.org"}, "west": map[string]any{"host": "west.example.org"}}
+		doc, err := yaml.Marshal(map[string]any{"c17h": map[string]any{"m": m, "l": l, "key": cur["key"], "n": cur["n"], "zone": cur["zone"], "zones": zones}})
+		if err != nil {
+			t.Skip("yaml")
+		}
+		mut := &HMutator{Mutate: rapid.IntRange(0, 3).Draw(t, "mutate") != 0}
+		rd := &HReader{}
+		lz := &HLazy{}
+		out := kit.RunApp(app.SetComponents(rd, mut, lz), app.SetConfigLoader(loader.NewRawLoader(doc)))
+		if !out.OK() {
+			t.Fatalf("C17: start failed: %v\nyaml:\n%s", out, doc)
+		}
+		wantM := map[string]any{}
+		for k, v := range m {
+			wantM[k] = v
+		}
+		wantL := make([]any, len(l))
+		for i := range l {
+			wantL[i] = l[i]
+		}
+		ctx := fmt.Sprintf("(an earlier component edited its own copy in place: %v)\nyaml:\n%s", mut.Mutate, doc)
+		eq := func(what string, got, want any) {
+			if !reflect.DeepEqual(got, want) {
+				t.Fatalf("C17: %s holds %#v, configured is %#v %s", what, got, want, ctx)
+			}
+		}
+		eq("first component's map[string]any prefix:\"c17h.m\" (at Init)", mut.SeenM, wantM)
+		eq("first component's []any prefix:\"c17h.l\" (at Init)", mut.SeenL, wantL)
+		eq("later component's map[string]any prefix:\"c17h.m\"", rd.M, wantM)
+		eq("later component's map[string]string prefix:\"c17h.m\"", rd.MS, m)
+		eq("later component's map[string]string value:\"${c17h.m}\"", rd.MV, m)
+		eq("later component's []any prefix:\"c17h.l\"", rd.L, wantL)
+		eq("later component's []string prefix:\"c17h.l\"", rd.LS, l)
+		eq("later component's []string value:\"${c17h.l}\"", rd.LV, l)
+		eq("later component's []string prop:\"c17h.l\"", rd.LQ, l)
+		eq("later component's struct prefix:\"c17h\" member m", rd.W.M, m)
+		eq("later component's struct prefix:\"c17h\" member l", rd.W.L, l)
+		eq("Get(\"c17h.m\") after start", norm(reflect.ValueOf(out.App.Get("c17h.m"))), norm(reflect.ValueOf(wantM)))
+		eq("Get(\"c17h.l\") after start", norm(reflect.ValueOf(out.App.Get("c17h.l"))), norm(reflect.ValueOf(wantL)))
+
+		// the lazily created component: attempts until the gate is open
+		var hist []string
+		steps := rapid.IntRange(1, 4).Draw(t, "steps")
+		created := false
+		for i := 0; i < steps && !created; i++ {
+			for _, k := range []string{"key", "n", "zone", "gate"} {
+				if rapid.IntRange(0, 2).Draw(t, "set-"+k) != 0 {
+					continue
+				}
+				var v any
+				switch k {
+				case "key":
+					v = word.Draw(t, "newkey")
+				case "n":
+					v = rapid.IntRange(100, 199).Draw(t, "newn")
+				case "zone":
+					v = rapid.SampledFrom([]string{"east", "west"}).Draw(t, "newzone")
+				default:
+					v = rapid.SampledFrom([]string{"open", "open", "ajar"}).Draw(t, "newgate")
+				}
+				out.App.Set("c17h."+k, v)
+				cur[k] = v
+				hist = append(hist, fmt.Sprintf("set %s=%v", k, v))
+			}
+			_, err := out.App.GetComponentByName("c17h-lazy")
+			hist = append(hist, fmt.Sprintf("lookup fails=%v", err != nil))
+			if cur["gate"] != "open" {
+				if err == nil {
+					t.Fatalf("C17: gate is %v, Init refuses, yet the lookup succeeded; history %v", cur["gate"], hist)
+				}
+				continue
+			}
+			if err != nil {
+				t.Fatalf("C17: gate is open now but the lookup fails: %v; history %v", err, hist)
+			}
+			created = true
+			host := cur["zone"].(string) + ".example.org"
+			hctx := fmt.Sprintf("after history %v (attempt %d)", hist, lz.Runs)
+			for _, c := range []struct {
+				what      string
+				got, want any
+			}{
+				{`prefix:"c17h.key"`, lz.P, cur["key"]}, {`value:"${c17h.key}"`, lz.V, cur["key"]}, {`prop:"c17h.key"`, lz.Q, cur["key"]},
+				{`prefix:"c17h.n"`, lz.NP, cur["n"]}, {`value:"${c17h.n}"`, lz.NV, cur["n"]}, {`value:"${c17h.n:5}"`, lz.ND, cur["n"]},
+				{`prefix:"c17h.zones.${c17h.zone}.host"`, lz.Z, host}, {`value:"${c17h.zones.${c17h.zone}.host}"`, lz.ZV, host},
+			} {
+				if !reflect.DeepEqual(c.got, c.want) {
+					t.Fatalf("C17: field %s holds %#v, the configuration now gives %#v %s", c.what, c.got, c.want, hctx)
+				}
+			}
+		}
+		labels := []string{"history"}
+		if mut.Mutate {
+			labels = append(labels, "in-place-edit-before-later-binding")
+		}
+		if created && lz.Runs > 1 {
+			labels = append(labels, "rebound-after-failed-creation")
+		}
+		kit.Rec.Case(fmt.Sprintf("m=%v l=%v mutate=%v hist=%v", m, l, mut.Mutate, hist), mut.Mutate || lz.Runs > 1, labels...)
+	})
+}
